@@ -111,7 +111,7 @@ static void one_dimensional(unsigned long long& unit)
 {
 	auto F = families();
 	// (the last three: non-empty intervals narrower than any absolute width threshold; the integral is f(mid)*width to 1e-9)
-	std::vector<std::pair<double, double>> ivs = {{0, 1}, {-1, 2}, {0, 2}, {-0.5, 0.5}, {1, 1 + std::ldexp(1.0, -41)}, {0, 1e-13}, {-3e-14, 2e-14}};
+	std::vector<std::pair<double, double>> ivs = {{0, 1}, {-1, 2}, {0, 2}, {-0.5, 0.5}, {1, 1 + std::ldexp(1.0, -41)}, {0, 1e-13}, {-3e-14, 2e-14}, {-3, -0.5}, {-1.25, -1}};
 	if(mc::thorough())
 		for(auto iv : std::vector<std::pair<double, double>>{{-2, 3}, {0.25, 0.75}, {10, 11}, {-1e-3, 1e-3}, {-0.1, 1.9}, {1e6, 1e6 + 0.5}, {-7, -6.5}, {2, 2 + 1e-9}, {0, 1e-100}})
 			ivs.push_back(iv);
@@ -133,6 +133,19 @@ static void one_dimensional(unsigned long long& unit)
 			if(ex == 0 || !std::isfinite((double)ex)) { mc::count("cases_skipped_integral_vanishes", 1); continue; }
 			ld kap = kappa(fam, iv.first, iv.second);
 			if(kap > 1e6L || fabsl(ex) < 1e-6L * fabsl((ld)iv.second - iv.first)) { mc::count("cases_skipped_integral_vanishes", 1); continue; }
+			// sign and scale: the stated accuracy is relative, so c*f must be integrated as accurately as f for c of either sign and any size
+			for(double c : {-1.0, 1e-6, -1e-6, 1e6})
+					for(auto& m : METHODS)
+					{
+						if(&iv - &ivs[0] >= 4 && &iv - &ivs[0] <= 6) continue;	// (the three sub-1e-12 intervals are run unscaled only)
+						std::string key = fam.name + ",scaled_by=" + mc::dec(c) + ",a=" + mc::dec(iv.first) + ",b=" + mc::dec(iv.second) + ",method=" + m + ",param=0";
+						auto fs = [&](double x) { return c * (double)fam.f(x); };
+						double v = 0;
+						if(mc::library_exits([&]() { v = Integrate(fs, iv.first, iv.second, m, 0); })) { fail("methods1d", key, "terminated_process", "valid request ended the process"); continue; }
+						g_cases++;
+						double tol = method_acc(m) * (double)(kap * fabsl(ex)) * std::fabs(c);
+						if(!(fabsl(v - c * ex) <= tol)) fail("methods1d", key, "inaccurate", "Integrate = " + mc::dec(v) + " exact " + mc::dec((double)(c * ex)) + " relative error " + mc::dec((double)(fabsl(v - c * ex) / fabsl(c * ex))));
+					}
 			for(auto& m : METHODS)
 				for(int par : {0, 1, 2, 3})
 				{
